@@ -679,39 +679,34 @@ func checkDomainTryAdd(c *Ctx, rule string, ta, fh *ssa.Function) {
 
 	// wildcard-TLD values: a complete pre-scan returning false on HasSuffix(element, ".*")
 	key = "DomainsTable.TryAdd: rules with a wildcard-TLD $domain value are declined"
+	// canonical search form: every keying update happens only when no permitted
+	// domain ends in ".*" (hand-written pre-scan, helper or slices.ContainsFunc)
 	found := false
-	for _, l := range loops {
-		ro := rangedOver(l)
-		if ro == nil || !ro.Full || s.Env[ro.Coll] == nil || s.Env[ro.Coll].key != pd.key || l.Blocks[upd.Block()] {
-			continue
-		}
-		// early exit condition must be HasSuffix(elem, ".*") and lead to return false
-		for _, ex := range l.Exits {
-			if ex[0] == l.Header {
+	{
+		g2 := NewGate(c.P)
+		g2.Inline = inlineOnly("(*rules.NetworkRule).GetPermittedDomains")
+		g2.Search = true
+		s2 := g2.Eval(ta)
+		u2 := g2.U
+		pd2 := u2.Field(g2.ParamExprs(ta)[1], "permittedDomains", nil)
+		nUpd, nGuarded := 0, 0
+		for _, ef := range s2.Effects {
+			if ef.Kind != "mapupdate" {
 				continue
 			}
-			ec := edgeCondOf(u, s, ex[0], ex[1])
-			for _, at := range u.AtomsOf(ec) {
-				if at.Op == "call" && at.Aux == "strings.HasSuffix" && at.Args[0].Op == "index" && at.Args[0].Args[0].key == pd.key && isStr(at.Args[1], ".*") && u.bdd.Implies(ec, u.Atom(at)) {
-					// every iteration tests it
-					body := u.bdd.And(s.RC[l.Header], contCond(u, s, l))
-					if ec == u.bdd.And(body, u.Atom(at)) {
-						// the exit returns false
-						for _, r := range s.Rets {
-							if u.bdd.Implies(r.Cond, ec) && r.Cond != False {
-								if v := r.Vals[0]; v.Op == "bool" && v.B == False {
-									found = true
-								}
-							}
-						}
+			nUpd++
+			for _, at := range u2.AtomsOf(ef.Cond) {
+				if at.Op == "exists" && at.Args[0] == pd2 && u2.bdd.Implies(ef.Cond, u2.bdd.Not(u2.Atom(at))) {
+					pr := u2.ToBool(at.Args[1])
+					pats := u2.AtomsOf(pr)
+					if len(pats) == 1 && pr == u2.Atom(pats[0]) && pats[0].Op == "call" && pats[0].Aux == "strings.HasSuffix" && pats[0].Args[0].Op == "bvar" && isStr(pats[0].Args[1], ".*") {
+						nGuarded++
+						break
 					}
 				}
 			}
 		}
-		// and the keying loop is only reachable after exhaustion
-		if found && !u.bdd.Implies(s.RC[upd.Block()], u.bdd.Not(contCond(u, s, l))) {
-			found = false
-		}
+		found = nUpd > 0 && nUpd == nGuarded
 	}
 	c.Check(found, rule, key, ta.Pos(), "complete pre-scan of permittedDomains returns false on a value ending in \".*\"; keys are stored only after the scan is exhausted",
 		"a rule whose $domain list has a wildcard-TLD value (google.*) is exact-keyed: the probe hashes only real dot-suffixes of the source hostname, so the rule is never found although Match accepts it")
